@@ -557,7 +557,12 @@ func statusTypestate(c *Ctx) {
 		// a status chosen between constants on the way to one store (`if accepted { po.Status = Accepted } else { po.Status =
 		// Rejected }; k.Set(po)`) is one transition per constant: each is judged where that constant is assigned — the
 		// assignment must stand under the guards of its transition
-		if status.Op == "call" && status.Callee != nil && w.EnumResult(status.Callee, 0) {
+		vcall, vidx := status, 0
+		if vcall.Op == "res" && len(vcall.Args) == 1 {
+			fmt.Sscan(vcall.Name, &vidx)
+			vcall = vcall.Args[0]
+		}
+		if vcall.Op == "call" && vcall.Callee != nil && w.EnumResult(vcall.Callee, vidx) {
 			// the status is the verdict of a helper (kept as the helper's call): one transition per constant it returns
 			if split := verdictSplit(c, pw, st); len(split) > 0 {
 				extra = append(extra, split...)
@@ -698,10 +703,18 @@ func thresholds(c *Ctx, pw poWriter, status, baseKey, key string) {
 	rejects := func(e *ir.Expr) bool { return isCounterOf(c, e, stRejected, baseKey) }
 	thr := func(e *ir.Expr) bool {
 		e = stripConvE(e)
+		if e.Op == "call" && e.Callee != nil {
+			// the threshold computed by a helper (of a decoded signer list, say)
+			e = stripConvE(c.W.Expand(e, 5))
+		}
 		if e.Op != "bin" || e.Name != "-" {
 			return false
 		}
 		l := e.Args[0]
+		if l.Op != "call" || l.Name != "builtin:len" {
+			// the number of listed signers kept in a decoded signer record
+			l = stripConvE(c.W.Expand(l, 5))
+		}
 		okLen := l.Op == "call" && l.Name == "builtin:len" && len(l.Args) == 1 && l.Args[0].Op == "call" && l.Args[0].Name == "strings.Split" && isEntParam(c, l.Args[0].Args[0], "EntSigners")
 		return okLen && minAcc(e.Args[1])
 	}
